@@ -5,6 +5,7 @@ package desync
 // the counterexample recorded by the solver.
 
 import (
+	"sync"
 	"path/filepath"
 	"encoding/hex"
 	"encoding/json"
@@ -19,6 +20,9 @@ type vReplayData struct {
 	Label   string            `json:"label"`
 	Kind    string            `json:"kind"`
 }
+
+// vMu guards the native bookkeeping below: harnesses call the API from several goroutines.
+var vMu sync.Mutex
 
 var (
 	vReplay     *vReplayData
@@ -52,6 +56,8 @@ func vName(name string) string {
 }
 
 func vVal(name string) uint64 {
+	vMu.Lock()
+	defer vMu.Unlock()
 	full := vName(name)
 	if vReplay == nil {
 		return 0
@@ -97,11 +103,17 @@ func vAssume(c bool) {
 
 func vAssert(c bool, label string) {
 	if !c {
+		vMu.Lock()
 		vFailed = append(vFailed, label)
+		vMu.Unlock()
 	}
 }
 
-func vCover(label string)       { vCovered[label] = true }
+func vCover(label string) {
+	vMu.Lock()
+	vCovered[label] = true
+	vMu.Unlock()
+}
 func vNote(s string)            {}
 func vTier() int                { return vTierNative }
 func vUnwind(n int)             {}
@@ -120,7 +132,12 @@ func vNot(a bool) bool          { return !a }
 
 var vClock int64
 
-func vNow() int64 { vClock++; return vClock }
+func vNow() int64 {
+	vMu.Lock()
+	defer vMu.Unlock()
+	vClock++
+	return vClock
+}
 
 func vIteU64(c bool, a, b uint64) uint64 {
 	if c {
